@@ -8,7 +8,7 @@ SPEC = {
     'explanation': "Deductive (planar interpolate_path, symbolic path of arbitrary length): outer foreach over an arbitrary consecutive pair, inner counted loop with the inductive invariant (px,py) = p1 + i (dx,dy): the first point is kept, every original end point is appended after its insertions, a pair is left unsubdivided only if it is at most dd apart, every inserted point is p1 + s (p2 - p1) with s = (i+1)/dt in (0,1], consecutive insertions are one step apart and a step is at most dd (ceil axioms), no division by zero. Bounded: both metrics, 1-6 points, spacings 1e-3..10 x the longest leg, repeated points; lat-lon insertions against a great-circle reference.",
     'assumptions': ["math.ceil model (k-1 < x <= k)", "lat-lon variant: bounded only (inserted points within 1 cm of the great-circle arc, ordered, gaps <= dd)"],
     'deductive': [("planar interpolate_path (foreach + loop invariant)", 'planar', r'.')],
-    'bounded': [('both-metrics-vs-reference', geo_suites.case_C20, 2000, 40000,
+    'bounded': [('both-metrics-vs-reference', geo_suites.case_C20, 2000, 300000,
                  "1-6 points; planar coordinates in [-50,50]^2; lat-lon legs 1 m .. 60 km at 7 anchors; non-trivial = at least one leg subdivided", "")],
     'extra_builders': {'planar': lambda prog, tier: [IP.vc_interpolate_planar(prog)]},
 }
